@@ -684,4 +684,55 @@ theorem batchLoop_fuel (dec : Bytes → MPR (List Metric)) (fmt : Fmt)
         have := hd pkt ms rest (by rw [he])
         exact ih rest _ _ (by omega)
 
+theorem batchLoop_fmt (dec : Bytes → MPR (List Metric)) (fmt : Fmt) :
+    ∀ (f : Nat) (pkt : Bytes) (acc : List Metric) (a : Nat), (batchLoop dec fmt f pkt acc a).fmt = fmt := by
+  intro f
+  induction f with
+  | zero => intro pkt acc a; rfl
+  | succ f ih =>
+    intro pkt acc a
+    simp only [batchLoop]
+    split
+    · rfl
+    · split
+      · rfl
+      · exact ih _ _ _
+
+theorem batchLoop_alloc_zero (dec : Bytes → MPR (List Metric)) (fmt : Fmt) (hd : ∀ b, (dec b).alloc = 0) :
+    ∀ (f : Nat) (pkt : Bytes) (acc : List Metric), (batchLoop dec fmt f pkt acc 0).alloc = 0 := by
+  intro f
+  induction f with
+  | zero => intro pkt acc; rfl
+  | succ f ih =>
+    intro pkt acc
+    simp only [batchLoop]
+    split
+    · rfl
+    · have h := hd pkt
+      split
+      · rename_i a' e he; rw [he] at h; simp at h; simp [h]
+      · rename_i a' ms rest he; rw [he] at h; simp at h; subst h; exact ih _ _
+
+/-- the loop `for len(pkt) > 0` itself never runs out of fuel when every successful read consumes input:
+    a `fuel` error can only have been handed up by the decoder -/
+theorem batchLoop_fuel_origin (dec : Bytes → MPR (List Metric)) (fmt : Fmt)
+    (hd : ∀ b y r, (dec b).res = .ok (y, r) → r.length < b.length) :
+    ∀ (f : Nat) (pkt : Bytes) (acc : List Metric) (a : Nat), pkt.length < f →
+      (batchLoop dec fmt f pkt acc a).err = some .fuel → ∃ b, (dec b).res = .error .fuel := by
+  intro f
+  induction f with
+  | zero => intro pkt acc a h; omega
+  | succ f ih =>
+    intro pkt acc a hp
+    simp only [batchLoop]
+    split
+    · simp
+    · split
+      · rename_i a' e he
+        intro h; simp at h; subst h
+        exact ⟨pkt, by rw [he]⟩
+      · rename_i a' ms rest he
+        have := hd pkt ms rest (by rw [he])
+        exact ih rest _ _ (by omega)
+
 end SH.Wire
